@@ -429,6 +429,10 @@ func gen(r *hx.Rng) bundle {
 func main() {
 	o := hx.ParseFlags()
 	defer hx.Flush()
+	if o.Extra == "iter" {
+		mainIter(o)
+		return
+	}
 	for i, in := range hx.ReadInputs(o.Input) {
 		b := parse(in)
 		hx.Emit(fmt.Sprintf("c%d", i), b.base()+" | "+b.oracle(), run(b))
